@@ -284,7 +284,8 @@ class LayoutExtractor:
         ret = None
         for st in body:
             if isinstance(st, ast.Assign) and len(st.targets) == 1 and isinstance(st.targets[0], ast.Name):
-                v = st.value
+                # earlier plain locals are substituted into later expressions (``pack = self.format.pack``)
+                v = _subst_names(st.value, {k: x[1] for k, x in locs.items() if x[0] == 'expr'})
                 if isinstance(v, ast.Call) and isinstance(v.func, ast.Attribute) and v.func.attr == 'encode':
                     ch = attr_chain(v.func.value)
                     if ch and len(ch) == 2 and ch[0] == 'self':
@@ -292,7 +293,7 @@ class LayoutExtractor:
                         continue
                 locs[st.targets[0].id] = ('expr', v)
             elif isinstance(st, ast.Return):
-                ret = st.value
+                ret = _subst_names(st.value, {k: x[1] for k, x in locs.items() if x[0] == 'expr'}) if st.value is not None else None
             elif _is_logging(st):
                 continue
             else:
@@ -421,17 +422,98 @@ class LayoutExtractor:
         if f.kind == 'classmethod' and len(params) >= 2:
             stream_names.add(params[1])
         pending_tuple: Dict[str, List[str]] = {}
+        substreams: Dict[str, Affine] = {}   # local bound to cStringIO(stream.read(n)) -> n
+        # ``return cls(list(gen()), x)``: name the computed arguments first, as the two-statement form does
+        if body and isinstance(body[-1], ast.Return) and isinstance(body[-1].value, ast.Call):
+            import copy as _copy0
+            rcall = _copy0.copy(body[-1].value)
+            hoisted: List[ast.stmt] = []
+            new_args = []
+            for i, a in enumerate(rcall.args):
+                if _root_name(a) is None and not isinstance(a, ast.Constant):
+                    nm = '__ret%d' % i
+                    hoisted.append(ast.copy_location(ast.Assign(targets=[ast.Name(id=nm, ctx=ast.Store())], value=a), body[-1]))
+                    a = ast.Name(id=nm, ctx=ast.Load())
+                new_args.append(a)
+            new_kws = []
+            for kw in rcall.keywords:
+                if kw.arg and _root_name(kw.value) is None and not isinstance(kw.value, ast.Constant):
+                    nm = '__ret_%s' % kw.arg
+                    hoisted.append(ast.copy_location(ast.Assign(targets=[ast.Name(id=nm, ctx=ast.Store())], value=kw.value), body[-1]))
+                    kw = ast.keyword(arg=kw.arg, value=ast.Name(id=nm, ctx=ast.Load()))
+                new_kws.append(kw)
+            if hoisted:
+                rcall.args, rcall.keywords = new_args, new_kws
+                new_ret = ast.copy_location(ast.Return(value=rcall), body[-1])
+                for h in hoisted + [new_ret]:
+                    ast.fix_missing_locations(h)
+                body = body[:-1] + hoisted + [new_ret]
+        accs: Dict[str, bool] = {}          # locals initialised to an empty list (in-place accumulation loops)
+        loop_pre: List[ast.stmt] = []       # ``t = _next_type(stream)`` before an in-place loop
+
+        def consumed_so_far():
+            consumed = Affine.c(0)
+            for el in elems:
+                if el[0] == 'f':
+                    consumed = consumed + Affine.c(el[2])
+                elif el[1] == 'read':
+                    consumed = consumed + el[2]
+                else:
+                    return None
+            own_stream = any(isinstance(x, ast.Assign) and isinstance(x.value, ast.Call) and
+                             norm(x.value.func) in ('cStringIO', 'BytesIO', 'six.BytesIO', 'io.BytesIO') for x in body)
+            return consumed if own_stream else None
         for st in body:
             if isinstance(st, ast.FunctionDef):
                 gens[st.name] = st
                 continue
             if _is_logging(st):
                 continue
+            if isinstance(st, ast.Assign) and len(st.targets) == 1 and isinstance(st.targets[0], ast.Name):
+                v0 = st.value
+                if (isinstance(v0, ast.List) and not v0.elts) or \
+                        (isinstance(v0, ast.Call) and norm(v0.func) == 'list' and not v0.args and not v0.keywords):
+                    accs[st.targets[0].id] = True
+                    continue
+                if isinstance(v0, ast.Call) and norm(v0.func) == '_next_type':
+                    loop_pre.append(st)
+                    continue
+            if isinstance(st, ast.While):
+                # in-place accumulation loop: the same shapes as the nested generators, with ``acc.append(x)``
+                # where the generator says ``yield x``
+                import copy as _copy
+                names = {n.func.value.id for n in ast.walk(st) if isinstance(n, ast.Call) and isinstance(n.func, ast.Attribute)
+                         and n.func.attr == 'append' and isinstance(n.func.value, ast.Name) and n.func.value.id in accs}
+                if len(names) != 1:
+                    raise AnalysisError('%s: loop in decode() accumulates into %s' % (f.loc(st), sorted(names) or 'nothing'))
+                acc = names.pop()
+
+                class _Y(ast.NodeTransformer):
+                    def visit_Expr(self, n):
+                        c_ = n.value
+                        if isinstance(c_, ast.Call) and isinstance(c_.func, ast.Attribute) and c_.func.attr == 'append' \
+                                and isinstance(c_.func.value, ast.Name) and c_.func.value.id == acc and len(c_.args) == 1:
+                            return ast.copy_location(ast.Expr(value=ast.copy_location(ast.Yield(value=c_.args[0]), n)), n)
+                        return n
+                gbody = [_Y().visit(_copy.deepcopy(x)) for x in loop_pre + [st]]
+                gnode = ast.FunctionDef(name='__inline_loop', args=ast.arguments(posonlyargs=[], args=[], kwonlyargs=[],
+                                        kw_defaults=[], defaults=[]), body=gbody, decorator_list=[], lineno=st.lineno, col_offset=0)
+                ast.fix_missing_locations(gnode)
+                desc = self._loop_desc(gnode, c, env, f, consumed_so_far())
+                elems.append(('v', 'loop', desc, acc))
+                env[acc] = ('val', acc)
+                loop_pre = []
+                continue
             if isinstance(st, ast.Assign) and len(st.targets) == 1:
                 t, v = st.targets[0], st.value
                 # stream = cStringIO(raw)
                 if isinstance(t, ast.Name) and isinstance(v, ast.Call) and norm(v.func) in ('cStringIO', 'BytesIO', 'six.BytesIO', 'io.BytesIO'):
-                    stream_names.add(t.id)
+                    rd0 = self._read_call(v.args[0], stream_names) if len(v.args) == 1 else None
+                    if rd0 is not None:
+                        # bounded sub-stream over the next n bytes of the decoder's stream
+                        substreams[t.id] = self._aff_dec(rd0, env, c)
+                    else:
+                        stream_names.add(t.id)
                     continue
                 u = self._unpack_call(v, c, stream_names)
                 if u is not None:
@@ -488,18 +570,7 @@ class LayoutExtractor:
                     env[t.id] = ('val', t.id)
                     continue
                 # x = list(gen()) / list(cls.sub_items(stream))
-                consumed = Affine.c(0)
-                for el in elems:
-                    if el[0] == 'f':
-                        consumed = consumed + Affine.c(el[2])
-                    elif el[1] == 'read':
-                        consumed = consumed + el[2]
-                    else:
-                        consumed = None
-                        break
-                own_stream = any(isinstance(x, ast.Assign) and isinstance(x.value, ast.Call) and
-                                 norm(x.value.func) in ('cStringIO', 'BytesIO', 'six.BytesIO', 'io.BytesIO') for x in body)
-                lp = self._loop(v, c, gens, env, stream_names, f, consumed if own_stream else None)
+                lp = self._loop(v, c, gens, env, stream_names, f, consumed_so_far(), substreams)
                 if lp is not None and isinstance(t, ast.Name):
                     elems.append(('v', 'loop', lp, t.id))
                     env[t.id] = ('val', t.id)
@@ -640,7 +711,7 @@ class LayoutExtractor:
         return None
 
     # ------------------------------------------------------------- loops
-    def _loop(self, v, c, gens, env, stream_names, f, consumed=None) -> Optional[LoopDesc]:
+    def _loop(self, v, c, gens, env, stream_names, f, consumed=None, substreams=None) -> Optional[LoopDesc]:
         if not (isinstance(v, ast.Call) and isinstance(v.func, ast.Name) and v.func.id == 'list' and len(v.args) == 1):
             return None
         inner = v.args[0]
@@ -665,6 +736,8 @@ class LayoutExtractor:
             a = inner.args[0]
             if isinstance(a, ast.Name) and a.id in stream_names:
                 pass
+            elif isinstance(a, ast.Name) and substreams and a.id in substreams:
+                bound = substreams[a.id]
             elif isinstance(a, ast.Call) and norm(a.func) in ('cStringIO', 'BytesIO', 'six.BytesIO', 'io.BytesIO') and len(a.args) == 1:
                 rd = self._read_call(a.args[0], stream_names)
                 if rd is None:
@@ -692,6 +765,13 @@ class LayoutExtractor:
         if loop is None:
             raise AnalysisError('%s: generator without while loop' % f.loc(gnode))
         test = loop.test
+        # ``limit != counter`` is ``counter != limit``
+        if isinstance(test, ast.Compare) and len(test.ops) == 1 and not (isinstance(test.left, ast.Name) and test.left.id in pre) \
+                and isinstance(test.comparators[0], ast.Name) and test.comparators[0].id in pre:
+            flip = {ast.Lt: ast.Gt, ast.Gt: ast.Lt, ast.LtE: ast.GtE, ast.GtE: ast.LtE, ast.Eq: ast.Eq, ast.NotEq: ast.NotEq}
+            if type(test.ops[0]) in flip:
+                test = ast.copy_location(ast.Compare(left=test.comparators[0], ops=[flip[type(test.ops[0])]()],
+                                                     comparators=[test.left]), test)
 
         def is_next_type(e):
             return isinstance(e, ast.Call) and norm(e.func) == '_next_type'
@@ -851,14 +931,48 @@ def _is_logging(st: ast.stmt) -> bool:
     """a pure logging / warnings call statement (no influence on the bytes)"""
     if isinstance(st, ast.Expr) and isinstance(st.value, ast.Call):
         t = norm(st.value.func)
-        return t.split('.')[0] in ('logging', 'logger', 'log', 'LOG', 'LOGGER', 'warnings') or t.startswith('logging.getLogger(')
+        root = t.split('.')[0]
+        return bool(re.match(r'(?i)^_*(log|logger|logging|warnings)$', root)) or t.startswith('logging.getLogger(')
     return False
 
 
+def _subst_names(e: ast.expr, mapping: Dict[str, ast.expr]) -> ast.expr:
+    """copy of ``e`` with loads of the mapped local names replaced by their (already substituted) definitions"""
+    if not mapping:
+        return e
+    import copy
+
+    class _S(ast.NodeTransformer):
+        def visit_Name(self, n):
+            if isinstance(n.ctx, ast.Load) and n.id in mapping:
+                return copy.deepcopy(mapping[n.id])
+            return n
+
+        def _comp(self, n):
+            bound = {x.id for g in n.generators for x in ast.walk(g.target) if isinstance(x, ast.Name)}
+            if bound & set(mapping):
+                return n
+            return self.generic_visit(n)
+        visit_GeneratorExp = visit_ListComp = visit_SetComp = visit_DictComp = _comp
+    out = _S().visit(copy.deepcopy(e))
+    ast.fix_missing_locations(out)
+    return out
+
+
 def _single_return(m: FuncInfo) -> ast.expr:
+    """the value a property / length method returns: one return, optionally preceded by plain local
+    assignments and logging, which are substituted into it"""
     body = body_without_docstring(m.node)
-    if len(body) == 1 and isinstance(body[0], ast.Return) and body[0].value is not None:
-        return body[0].value
+    locs: Dict[str, ast.expr] = {}
+    for st in body[:-1]:
+        if isinstance(st, ast.Assign) and len(st.targets) == 1 and isinstance(st.targets[0], ast.Name):
+            locs[st.targets[0].id] = _subst_names(st.value, locs)
+        elif _is_logging(st):
+            continue
+        else:
+            raise AnalysisError('%s: %s is not a single return expression' % (m.loc(), m.qualname))
+    if body and isinstance(body[-1], ast.Return) and body[-1].value is not None:
+        return _subst_names(body[-1].value, locs)
     raise AnalysisError('%s: %s is not a single return expression' % (m.loc(), m.qualname))
 
 
